@@ -80,7 +80,9 @@ Next ==
   \/ (now < MaxTime /\ Advance(1))
 Spec == Init /\ [][Next]_vars
 \* C13
-NeverOverLimitAtAdmission == (ev.e = "create" /\ ev.ns = 1) => (ev.inf <= ev.limit /\ ev.inf2 <= ev.limit)
+\* (the count of the admitting service only: the other service of the layer may hold more calls than a limit that has
+\*  shrunk since they were admitted)
+NeverOverLimitAtAdmission == (ev.e = "create" /\ ev.ns = 1) => (IF SvcOf(ev.c) = 1 THEN ev.inf <= ev.limit ELSE ev.inf2 <= ev.limit)
 ZeroWhenIdle == (\A c \in Callers : st[c] \in {"idle", "done", "refused"}) => InFlight = 0
 LimitInBounds == LimOK(lim)
 =============================================================================
